@@ -271,6 +271,7 @@ func genC06N(seed uint64, run int, tier string) Scenario {
 	}
 	sc.Ops = append(sc.Ops, NCOp{Kind: "close"})
 	sc.F.DropAfterEOF = r.IntN(2) == 0
+	sc.F.QuietAfterWriteErr = r.IntN(2) == 0
 	sc.Class += "/base"
 
 	return sc
